@@ -4,6 +4,7 @@ import (
 	"go/constant"
 	"go/token"
 	"go/types"
+	"sort"
 	"strings"
 
 	"golang.org/x/tools/go/ssa"
@@ -164,6 +165,14 @@ func addrKey(a ssa.Value) (addrK, bool) {
 		return addrK{x, ""}, true
 	case *ssa.FieldAddr:
 		return addrK{x.X, "." + string(rune('a'+x.Field))}, true
+	case *ssa.IndexAddr:
+		// an element of a slice parameter at a constant position (the detectors' input): one memory cell as long
+		// as nothing in between may store into a slice
+		if p, ok := x.X.(*ssa.Parameter); ok && isSliceOrStr(p.Type()) {
+			if k, ok := x.Index.(*ssa.Const); ok && k.Value != nil && k.Value.Kind() == constant.Int {
+				return addrK{p, "[" + k.Value.ExactString() + "]"}, true
+			}
+		}
 	}
 	return addrK{}, false
 }
@@ -257,8 +266,18 @@ func (s *Fn) allocEscapes(a *ssa.Alloc) (passedToCall bool, other bool) {
 func (s *Fn) clobbers(in ssa.Instruction, k addrK) bool {
 	switch x := in.(type) {
 	case *ssa.Store:
+		if strings.HasPrefix(k.path, "[") {
+			// an element cell: any store through an index into a slice may alias it; stores to named cells cannot
+			if ia, isIdx := x.Addr.(*ssa.IndexAddr); isIdx {
+				if _, isArr := ia.X.Type().Underlying().(*types.Pointer); isArr {
+					return false // element of a local / global array, not of a slice
+				}
+				return true
+			}
+			return false
+		}
 		k2, ok := addrKey(x.Addr)
-		if !ok {
+		if !ok || strings.HasPrefix(k2.path, "[") {
 			// store through IndexAddr etc.: cannot hit a scalar/slice-header cell
 			// unless the root is memory of unknown shape
 			if _, isIdx := x.Addr.(*ssa.IndexAddr); isIdx {
@@ -294,8 +313,8 @@ func (s *Fn) clobbers(in ssa.Instruction, k addrK) bool {
 		}
 		return true
 	case *ssa.Call:
-		if _, isB := x.Call.Value.(*ssa.Builtin); isB {
-			return false
+		if bi, isB := x.Call.Value.(*ssa.Builtin); isB {
+			return strings.HasPrefix(k.path, "[") && bi.Name() == "copy"
 		}
 		if a, isA := k.root.(*ssa.Alloc); isA {
 			for _, arg := range x.Call.Args {
@@ -340,6 +359,25 @@ func (s *Fn) canonLoads() {
 		}
 		return -1
 	}
+	// dominators first (block numbering need not follow dominance), then program order inside a block
+	depthOf := func(b *ssa.BasicBlock) int {
+		d := 0
+		for x := b.Idom(); x != nil; x = x.Idom() {
+			d++
+		}
+		return d
+	}
+	sort.SliceStable(loads, func(i, j int) bool {
+		bi, bj := loads[i].u.Block(), loads[j].u.Block()
+		if bi != bj {
+			di, dj := depthOf(bi), depthOf(bj)
+			if di != dj {
+				return di < dj
+			}
+			return bi.Index < bj.Index
+		}
+		return idx(loads[i].u) < idx(loads[j].u)
+	})
 	for i, l2 := range loads {
 		for j := 0; j < i; j++ {
 			l1 := loads[j]
